@@ -2,6 +2,8 @@
   Impl/Api.lean — the composition layer seen by the properties: load two scripts, diff, print.
 -/
 import SqlizeModel.Impl.ReaderMysql
+import SqlizeModel.Impl.ReaderPg
+import SqlizeModel.Impl.ReaderSqlite
 import SqlizeModel.Impl.Diff
 import SqlizeModel.Impl.Emit
 import SqlizeModel.Impl.Render
@@ -12,7 +14,8 @@ namespace Sqlize
 def readScript (g : Globals) (m : Migration) (ss : List Stmt) : M Migration :=
   match g.dialect with
   | .mysql => ReaderMysql.run m ss
-  | _ => .error "UNMODELLED reader for this dialect"
+  | .postgres => ReaderPg.run m ss
+  | .sqlite => ReaderSqlite.run m ss
 
 /-- load both sides from the empty model and diff: the state `Sqlize.Diff` leaves in the new side -/
 def loadAndDiff (g : Globals) (old new : List Stmt) : M Migration := do
